@@ -179,6 +179,14 @@ def reqEncOk (out : ReqAct) (enc : List SVar) : Bool :=
 def reqHolds (ins : List ReqAct) (out : ReqAct) (enc : List SVar) : Bool :=
   reqFoldOk ins out && reqEncOk out enc
 
+/-- Response side, whole sequence: `ins` = the actions given (in order), `out` = the combined one. -/
+def respRuleOk (ins : List RespAct) (out : RespAct) : Bool :=
+  (out.isNoop == ins.all (·.isNoop)) &&
+  -- modifications merge their header edits, retries likewise
+  (let ks := ins.filter (!·.isNoop)
+   (!(ks.all (·.isMod)) || ((ks.isEmpty || out.isMod) && hdrsUnion (ins.map (·.hdrs)) out.hdrs)) &&
+   (!(ks.all (·.isRetry)) || ((ks.isEmpty || out.isRetry) && hdrsUnion (ins.map (·.hdrs)) out.hdrs)))
+
 /-- Response side, one fold step: `ins` = the actions given so far INCLUDING the one just
     combined (`ins.getLast?`), `prev` = the combined action before this step, `out` = after. -/
 def respFoldOk (ins : List RespAct) (prev out : RespAct) : Bool :=
@@ -186,11 +194,7 @@ def respFoldOk (ins : List RespAct) (prev out : RespAct) : Bool :=
   (match ins.getLast? with
    | some a => !a.isNoop || out.sim prev
    | none => true) &&
-  (out.isNoop == ins.all (·.isNoop)) &&
-  -- modifications merge their header edits, retries likewise
-  (let ks := ins.filter (!·.isNoop)
-   (!(ks.all (·.isMod)) || ((ks.isEmpty || out.isMod) && hdrsUnion (ins.map (·.hdrs)) out.hdrs)) &&
-   (!(ks.all (·.isRetry)) || ((ks.isEmpty || out.isRetry) && hdrsUnion (ins.map (·.hdrs)) out.hdrs)))
+  respRuleOk ins out
 
 def respEncOk (out : RespAct) (enc : List SVar) : Bool :=
   match decodeResp enc with
@@ -202,14 +206,30 @@ def respHolds (ins : List RespAct) (prev out : RespAct) (enc : List SVar) : Bool
 
 /-! ### One observed case and the judge predicate -/
 
-/-- One observed fold step. -/
+/-- At a fold SITE (`getSPOEReqActions` / `getSPOERespActions`) only the variables are visible:
+    what they decode to must obey the combination rule. -/
+def reqSiteHolds (ins : List ReqAct) (enc : List SVar) : Bool :=
+  match decodeReq enc with
+  | some d => reqFoldOk ins d
+  | none => false
+
+def respSiteHolds (ins : List RespAct) (enc : List SVar) : Bool :=
+  match decodeResp enc with
+  | some d => respRuleOk ins d
+  | none => false
+
+/-- One observation: a fold step (action and variables visible) or a call of a fold site. -/
 inductive Obs where
   | req (ins : List ReqAct) (out : ReqAct) (enc : List SVar)
   | resp (ins : List RespAct) (prev out : RespAct) (enc : List SVar)
+  | reqSite (ins : List ReqAct) (enc : List SVar)
+  | respSite (ins : List RespAct) (enc : List SVar)
 
 def Obs.holds : Obs → Bool
   | .req ins out enc => reqHolds ins out enc
   | .resp ins prev out enc => respHolds ins prev out enc
+  | .reqSite ins enc => reqSiteHolds ins enc
+  | .respSite ins enc => respSiteHolds ins enc
 
 def holds (h : List Obs) : Bool := h.all Obs.holds
 
